@@ -50,6 +50,16 @@ def dedupSpec (bombs : List Id) (xs : List Id) (o : List Outcome) : SpecOut Unit
   | [] => { final := [], exit := .ret (), rest := o }
   | x :: rest => sieve (· == 0) bombs [x] rest o
 
+/-- the calls `Vec::dedup_by(same_bucket)` makes on a list: every element after the first is compared with the
+    last element that was RETAINED so far (`last`) -/
+def dedupCallsSpec (bombs : List Id) (last : Id) : List Id → List Outcome → List (Id × Id)
+  | [], _ => []
+  | x :: _, [] => [(x, last)]
+  | x :: _, .panic :: _ => [(x, last)]
+  | x :: rest, .ret c :: o =>
+    (x, last) :: (if c ≠ 0 then (if bombs.contains x then [] else dedupCallsSpec bombs last rest o)
+                  else dedupCallsSpec bombs x rest o)
+
 /-! ## truncate / clear / pop / remove / swap_remove -/
 
 /-- exit of an operation whose only possible panic is a `Drop` of one of `ds` -/
